@@ -355,6 +355,42 @@ func HC09Sub() {
 	vReach("end")
 }
 
+// HC09SubTail: the sub-type detectors on inputs that can actually satisfy them: a concrete prefix that
+// already holds the deciding member, followed by a tail of arbitrary bytes (all 256 values). Examined in full,
+// a positive verdict implies the whole input is a well-formed (relaxed) document; examined as a prefix
+// (len == limit) it implies the input is a viable prefix.
+func HC09SubTail() {
+	maxN := vChoice("maxlen", 64)
+	pres := []string{`{"type":"Point"`, `{"type":"Feature","a":[1`, `{"log":{"version":"1"`, `{"log":{"entries":[`, `{"asset":{"version":"2.0"`, `{"a":{"b":[]},"type":"Polygon"`}
+	pre := pres[vChoice("prefix", len(pres))]
+	tail := vBytes("tail", 0, maxN)
+	x := append([]byte(pre), tail...)
+	which := vChoice("sub", 3)
+	whole := vChoice("mode", 2) == 0
+	limit := uint32(0)
+	if !whole {
+		limit = uint32(len(x))
+	}
+	var got bool
+	switch which {
+	case 0:
+		got = GeoJSON(x, limit)
+	case 1:
+		got = HAR(x, limit)
+	case 2:
+		got = GLTF(x, limit)
+	}
+	if got {
+		st, _ := jDoc(x, false)
+		if whole {
+			vAssert(st == jAcc, "subtype-tail-implies-wellformed")
+		} else {
+			vAssert(st != jRej, "subtype-tail-implies-viable-prefix")
+		}
+	}
+	vReach("end")
+}
+
 // HC08: every strict document is accepted in full and at every cut after the opening bracket.
 func HC08() {
 	maxN := vChoice("maxlen", 64)
